@@ -279,6 +279,12 @@ def stageX (l : List V) (tok : String) : Option (List V) :=
     | [] => XSlices.repeat_ zeroV (V.i 0) (intOr arg)
   | _ => none
 
+/-- The fold function of the `reduce` lines is the harness's own `acc*3 + x` on Go `int`s; with more than about forty
+items it wraps around. The model folds over unbounded `Int`, so the printed value is reduced to the two's-complement
+64-bit representative (a ring homomorphism: wrapping once at the end equals wrapping at every step). Found by a
+thorough run on the unchanged tree (seed 161: a join of 17 iterators, 59 items) as a correspondence difference. -/
+def wrap64 (x : Int) : Int := (x + 9223372036854775808) % 18446744073709551616 - 9223372036854775808
+
 /-- the terminal operation of an `xs` line: `reduce` (`xslices.Reduce`, the fold of `ireduce`),
 `equal=<script>` (`xslices.Equal` with the items of the script), or none (the list itself) -/
 def finishX (l : List V) (tok : Option String) : String :=
@@ -287,7 +293,7 @@ def finishX (l : List V) (tok : Option String) : String :=
   | some t =>
     let (k, arg) := splitTok t
     if k == "reduce" then
-      s!"val {(XSlices.reduce zeroV (fun (acc : V) a => V.i (acc.toInt * 3 + a.toInt)) (V.i 0) l).toInt}"
+      s!"val {wrap64 (XSlices.reduce zeroV (fun (acc : V) a => V.i (acc.toInt * 3 + a.toInt)) (V.i 0) l).toInt}"
     else if k == "equal" then s!"equal {XSlices.equal l (scriptItems (parseScript arg))}"
     else "bad-op"
 
@@ -469,7 +475,7 @@ def step (s : St) : List String → St × String
       let g : Int → V → Except Stream.Err Int := fun acc a =>
         if bad == some a.toInt then .error (.cb a.toInt.toNat) else .ok (acc * 3 + a.toInt)
       let (r, p') := Stream.reduce spM g (ctxOf c) FUEL (0 : Int) p
-      (showROut (fun (v : Int) => s!"val {v}") r, p')
+      (showROut (fun (v : Int) => s!"val {wrap64 v}") r, p')
   | ["sample", k, c] => onStream s fun p =>
       let (r, p') := Stream.sampleCount spM (ctxOf c) FUEL p
       (showROut (fun (n : Nat) => s!"count {min n (natOr k)}") r, p')
@@ -524,7 +530,7 @@ def step (s : St) : List String → St × String
       ((match x with | none => "diverge" | some l => "list " ++ showList l), p')
   | ["ireduce", k] => onIter s k fun p =>
       let (x, p') := Iter.reduce ipM (fun (acc : V) a => V.i (acc.toInt * 3 + a.toInt)) FUEL (V.i 0) p
-      ((match x with | none => "diverge" | some v => s!"val {v.toInt}"), p')
+      ((match x with | none => "diverge" | some v => s!"val {wrap64 v.toInt}"), p')
   | ["ilast", k, n] => onIter s k fun p =>
       let (x, p') := Iter.last ipM (intOr n) FUEL p
       ((match x with | .ok l => "list " ++ showOptList l | .panic => "panic" | .fuel => "diverge"), p')
